@@ -38,13 +38,16 @@ struct Mock {
   MAKE_MOCK1(v, void(int));
 };
 
-struct MockN {            // the default, NON-movable kind of mock object (mock id 3 of the scripts)
-  MAKE_MOCK1(f, int(int));
+struct MockN {            // the default, NON-movable kind of mock object (mock id 3 of the scripts); arity-less macro form
+  MAKE_MOCK(f, auto (int) -> int);
 };
 
-struct VMock {            // a mock type with a virtual destructor, used as deathwatched<VMock> (mock id 4 == object id 4)
-  virtual ~VMock() = default;
-  MAKE_MOCK1(f, int(int));
+struct IFace {            // an interface, mocked through mock_interface<> / IMPLEMENT_MOCKn and called through the base
+  virtual ~IFace() = default;
+  virtual int f(int) = 0;
+};
+struct VMock : trompeloeil::mock_interface<IFace> {   // used as deathwatched<VMock> (mock id 4 == object id 4)
+  IMPLEMENT_MOCK1(f);
 };
 using WMock = trompeloeil::deathwatched<VMock>;
 
